@@ -192,3 +192,48 @@ Proof.
               ce shiftf ced1 ced2 wps0 psi_neg idist zp1e zp2e HL Hid) as (wps' & E & HLen & _).
   subst res l1 l2 W usq. rewrite E. cbn [fst snd]. split; [reflexivity|exact HLen].
 Qed.
+
+(* dtw_expand_wps_slice AS WRITTEN (Gen_cexpw.v, regenerated whole; dtw_expand_wps passes the whole matrix): on the array
+   the kernel leaves, for EVERY slice and any content of the caller's block, the flag collecting `0 <= index < size`
+   for every read of the compact array and every write of the (re-rb) x (ce-cb) block is true, and the block keeps
+   its size. *)
+From DV Require Import CExpW.
+From DVGen Require Import Gen_cexpw.
+
+Theorem C08_c_expand_accesses_in_bounds :
+  forall (window p m mld : Z) (psi : (nat * nat) * (nat * nat)), (0 <= window)%Z ->
+  let usq := c_to_u (cs_of window p m mld psi SqEuclid) in
+  forall (s1 s2 : list Dtw.point) (d : nat),
+  (forall q, In q s1 -> List.length q = d) -> (forall q, In q s2 -> List.length q = d) ->
+  (1 <= List.length s1)%nat -> (1 <= List.length s2)%nat ->
+  (psi_1b usq <= List.length s1)%nat -> (psi_2b usq <= List.length s2)%nat ->
+  forall ce0 shiftf ced1 ced2 (wps0 : list Cost.cost) psi_neg idist zp1e zp2e (rb re cb ce : Z) (full0 : list Cost.cost),
+  let l1 := Z.of_nat (List.length s1) in let l2 := Z.of_nat (List.length s2) in
+  let W := cw_width l1 l2 window in
+  Z.of_nat (List.length wps0) = ((l1 + 1) * W)%Z -> (idist =? 1)%Z = false ->
+  (0 <= rb < re)%Z -> (re <= l1 + 1)%Z -> (0 <= cb < ce)%Z -> (ce <= l2 + 1)%Z ->
+  Z.of_nat (List.length full0) = ((re - rb) * (ce - cb))%Z ->
+  let wps' := snd (fst (c_dtw_warping_paths_ndim ce0 shiftf ced1 ced2 wps0 (List.concat s1) l1 (List.concat s2) l2 false true psi_neg (Z.of_nat d)
+      ((l1 + 1) * W)%Z (c_parts_ldiff l1 l2) (c_parts_ldiffr l1 l2 (c_parts_ldiff l1 l2))
+      (c_parts_ldiffc l1 l2 (c_parts_ldiff l1 l2)) (c_parts_window l1 l2 window) W ((l1 + 1) * W)%Z
+      (c_parts_ri1 l1 (c_parts_overlap_left l1 (c_parts_ldiffr l1 l2 (c_parts_ldiff l1 l2)) (c_parts_window l1 l2 window))
+                      (c_parts_overlap_right l1 (c_parts_ldiffr l1 l2 (c_parts_ldiff l1 l2)) (c_parts_window l1 l2 window)))
+      (c_parts_ri2 l1 (c_parts_overlap_left l1 (c_parts_ldiffr l1 l2 (c_parts_ldiff l1 l2)) (c_parts_window l1 l2 window)))
+      (c_parts_ri3 l1 (c_parts_overlap_left l1 (c_parts_ldiffr l1 l2 (c_parts_ldiff l1 l2)) (c_parts_window l1 l2 window))
+                      (c_parts_overlap_right l1 (c_parts_ldiffr l1 l2 (c_parts_ldiff l1 l2)) (c_parts_window l1 l2 window)))
+      (adj_max_step usq) Cost.Inf (Cost.Fin (adj_penalty usq)) idist false (Z.of_nat (psi_1b usq)) zp1e (Z.of_nat (psi_2b usq)) zp2e false)) in
+  let res := c_dtw_expand_wps_slice wps' full0 l1 l2 rb re cb ce ((re - rb) * (ce - cb))%Z ((l1 + 1) * W)%Z
+      (c_parts_ldiff l1 l2) (c_parts_ldiffc l1 l2 (c_parts_ldiff l1 l2)) (c_parts_window l1 l2 window) W
+      (c_parts_ri1 l1 (c_parts_overlap_left l1 (c_parts_ldiffr l1 l2 (c_parts_ldiff l1 l2)) (c_parts_window l1 l2 window))
+                      (c_parts_overlap_right l1 (c_parts_ldiffr l1 l2 (c_parts_ldiff l1 l2)) (c_parts_window l1 l2 window)))
+      (c_parts_ri2 l1 (c_parts_overlap_left l1 (c_parts_ldiffr l1 l2 (c_parts_ldiff l1 l2)) (c_parts_window l1 l2 window)))
+      (c_parts_ri3 l1 (c_parts_overlap_left l1 (c_parts_ldiffr l1 l2 (c_parts_ldiff l1 l2)) (c_parts_window l1 l2 window))
+                      (c_parts_overlap_right l1 (c_parts_ldiffr l1 l2 (c_parts_ldiff l1 l2)) (c_parts_window l1 l2 window))) in
+  snd res = true /\ Z.of_nat (List.length (snd (fst res))) = ((re - rb) * (ce - cb))%Z.
+Proof.
+  intros window p m mld psi Hw usq s1 s2 d Hd1 Hd2 H1 H2 Hp1 Hp2 ce0 shiftf ced1 ced2 wps0 psi_neg idist zp1e zp2e rb re cb ce full0
+         l1 l2 W HL Hid Hrb Hre Hcb Hce HLf wps' res.
+  destruct (c_fill_then_expand window p m mld psi Hw s1 s2 d Hd1 Hd2 H1 H2 Hp1 Hp2 ce0 shiftf ced1 ced2 wps0 psi_neg idist zp1e zp2e
+              rb re cb ce full0 HL Hid Hrb Hre Hcb Hce HLf) as (w & f & E & EE & HLF & _).
+  subst res wps' l1 l2 W usq. rewrite E. cbn [fst snd]. rewrite EE. cbn [fst snd]. split; [reflexivity|exact HLF].
+Qed.
